@@ -37,6 +37,11 @@ pub struct Part {
 
 pub const MAX_RECORDED_VIOLATIONS: usize = 40;
 
+/// The first few violations recorded by any `Part` of this process: a check whose driver
+/// thread dies after it has found something (the thing found usually is why it dies) can still
+/// report what it found.
+pub static VIOLATION_MIRROR: std::sync::Mutex<Vec<(String, String, Value)>> = std::sync::Mutex::new(Vec::new());
+
 impl Part {
     pub fn new(property: &str, part: &str, engine: &str, level: &str, tier: &str) -> Part {
         Part {
@@ -80,6 +85,11 @@ impl Part {
 
     /// Record a violation; only the first few per distinct key keep their replay.
     pub fn violation(&mut self, key: &str, detail: String, replay: Value) {
+        if let Ok(mut m) = VIOLATION_MIRROR.lock() {
+            if m.len() < 8 {
+                m.push((key.to_string(), detail.clone(), replay.clone()));
+            }
+        }
         self.violations_total += 1;
         let same = self.violations.iter().filter(|v| v.key == key).count();
         if same < 3 && self.violations.len() < MAX_RECORDED_VIOLATIONS {
